@@ -9,6 +9,7 @@
 #include <limits.h>
 
 #ifndef HEX_CBMC
+#include <assert.h>   /* assert() kept from the source: an obligation for CBMC, the library macro in native builds */
 /* native (fidelity) build of the same text: contract clauses vanish */
 #define __CPROVER_requires(x)
 #define __CPROVER_ensures(x)
